@@ -31,7 +31,7 @@ use vcommon::forktree::{gen_history, hist_from_json, hist_to_json, shape_sig, Ge
 use vcommon::ledger::RefRoots;
 use vcommon::monitor::catch;
 use vcommon::prng::fnv64;
-use vcommon::snapshot::{compare_with_ref, diff, snapshot};
+use vcommon::snapshot::{compare_with_ref, diff, snapshot, Snap};
 use vcommon::world::{init_globals, init_thread, open_chain_with};
 use vcommon::{Prng, Run, Scratch};
 
@@ -268,6 +268,8 @@ struct WorldData {
 	shape: String,
 	pre_dir: Option<String>,
 	max_height: u64,
+	/// snapshot of a node fed all blocks sequentially, parent-first (None until computed)
+	ref_snap: Option<Snap>,
 }
 
 fn finish_world(mut h: Hist, kind: Kind, preload: usize, pre_dir: Option<String>) -> WorldData {
@@ -358,7 +360,34 @@ fn finish_world(mut h: Hist, kind: Kind, preload: usize, pre_dir: Option<String>
 		td_min_height: tds,
 		pre_dir,
 		max_height,
+		ref_snap: None,
 	}
+}
+
+/// Sequential reference node: all blocks parent-first into a fresh node (or a copy of the prepared
+/// directory). Err names the first block a sequential node refuses: such a world cannot be used.
+fn reference_snapshot(w: &WorldData, dir: &str) -> Result<Snap, String> {
+	let _ = std::fs::remove_dir_all(dir);
+	if let Some(pre) = &w.pre_dir {
+		copy_dir(pre, dir);
+	}
+	let r = (|| {
+		let rchain = open_chain_with(dir, &w.genesis, Arc::new(NoopAdapter {}), false)?;
+		for i in w.preload..w.all.len() {
+			tick(0, OP_REF_NODE);
+			if let Err(e) = rchain.process_block(w.all[i].block.clone(), w.opts) {
+				return Err(format!(
+					"block #{} (height {}, tags {:?}) is refused by a node fed sequentially parent-first: {:?}",
+					i, w.all[i].block.header.height, w.all[i].tags, e
+				));
+			}
+		}
+		let s = snapshot(&rchain, &w.commits);
+		drop(rchain);
+		s
+	})();
+	let _ = std::fs::remove_dir_all(dir);
+	r
 }
 
 impl WorldData {
@@ -1617,54 +1646,32 @@ fn execute_run(run: &Run, w: &WorldData, rc: &RunCfg, sc: &Scratch, san: bool) -
 					if let Some(d) = compare_with_ref(&snap, &stt) {
 						ctx.viol(&format!("final_state_vs_reference_ledger;{}", d.split(|c| c == ':' || c == '(').next().unwrap_or("").trim()), d);
 					}
-					// sequential reference node fed the same blocks parent-first
+					// sequential reference node fed the same blocks parent-first (computed once per world)
 					tick(0, OP_REF_NODE);
-					let rdir = format!("{}-ref", dir);
-					let _ = std::fs::remove_dir_all(&rdir);
-					if let Some(pre) = &w.pre_dir {
-						copy_dir(pre, &rdir);
-					}
-					match open_chain_with(&rdir, &w.genesis, Arc::new(NoopAdapter {}), false) {
-						Err(e) => run.inconclusive(&format!("reference node could not be opened: {}", e)),
-						Ok(rchain) => {
-							let mut fed = true;
-							for i in w.preload..w.all.len() {
-								tick(0, OP_REF_NODE);
-								if let Err(e) = rchain.process_block(w.all[i].block.clone(), w.opts) {
-									run.inconclusive(&format!("sequential reference node refused block {}: {:?}", i, e));
-									fed = false;
-									break;
+					match &w.ref_snap {
+						None => run.inconclusive("no reference snapshot for this world"),
+						Some(rs) => {
+							let mut rsnap = rs.clone();
+							// compaction removes per-block records below the tail: compare what both still hold
+							if let Some((_, th)) = snap.tail {
+								if w.kind == Kind::Long {
+									let keep = |m: &mut BTreeMap<u64, Vec<(u64, u64)>>| m.retain(|h, _| *h >= th);
+									keep(&mut snap.spent_index);
+									keep(&mut rsnap.spent_index);
+									snap.sums_by_height.retain(|h, _| *h >= th);
+									rsnap.sums_by_height.retain(|h, _| *h >= th);
 								}
 							}
-							if fed {
-								match snapshot(&rchain, &w.commits) {
-									Err(e) => run.inconclusive(&format!("reference node snapshot failed: {}", e)),
-									Ok(mut rsnap) => {
-										// compaction removes per-block records below the tail: compare what both still hold
-										if let Some((_, th)) = snap.tail {
-											if w.kind == Kind::Long {
-												let keep = |m: &mut BTreeMap<u64, Vec<(u64, u64)>>| m.retain(|h, _| *h >= th);
-												keep(&mut snap.spent_index);
-												keep(&mut rsnap.spent_index);
-												snap.sums_by_height.retain(|h, _| *h >= th);
-												rsnap.sums_by_height.retain(|h, _| *h >= th);
-											}
-										}
-										if let Some(d) = diff(&snap, &rsnap, true) {
-											ctx.viol(
-												&format!("final_state_vs_sequential_node;{}", d.split(' ').next().unwrap_or("")),
-												format!("concurrently fed node vs sequentially fed node: {}", d),
-											);
-										} else {
-											end_ok = true;
-										}
-									}
-								}
+							if let Some(d) = diff(&snap, &rsnap, true) {
+								ctx.viol(
+									&format!("final_state_vs_sequential_node;{}", d.split(' ').next().unwrap_or("")),
+									format!("concurrently fed node vs sequentially fed node: {}", d),
+								);
+							} else {
+								end_ok = true;
 							}
-							drop(rchain);
 						}
 					}
-					let _ = std::fs::remove_dir_all(&rdir);
 				}
 			}
 		}
@@ -1752,18 +1759,42 @@ fn do_phase(run: &Run, a: &PhaseArgs, shard: usize, nshards: usize, san: bool) {
 			continue;
 		}
 		let world_seed;
-		let built: WorldData;
+		let mut built: WorldData;
+		let refdir = sc.sub(&format!("ref-k{}", k));
 		let w: &WorldData = if a.long {
 			let j = (k as usize) % a.worlds.max(1);
 			world_seed = j as u64;
-			long_cache.entry(j).or_insert_with(|| load_long_world(&a.dir, j))
+			long_cache.entry(j).or_insert_with(|| {
+				let mut w = load_long_world(&a.dir, j);
+				w.ref_snap = match reference_snapshot(&w, &refdir) {
+					Ok(s) => Some(s),
+					Err(e) => {
+						run.inconclusive(&format!("long world {}: {}", j, e));
+						None
+					}
+				};
+				w
+			})
 		} else {
 			world_seed = mix(run.seed, 0x5057, k);
 			let t = Instant::now();
 			built = build_short_world(world_seed, a.small_worlds);
 			run.count("world_generation_ms_total", t.elapsed().as_millis() as u64);
+			built.ref_snap = match reference_snapshot(&built, &refdir) {
+				Ok(s) => Some(s),
+				Err(e) => {
+					// generator artefact (the reference ledger judges UTXO rules only): not a statement about the chain
+					run.count("worlds_discarded_sequential_node_refuses_a_block", 1);
+					eprintln!("C17 world k={} seed={:x} discarded: {}", k, world_seed, e);
+					run.extra("last_discarded_world", json!({"k": k, "world_seed": world_seed, "why": e}));
+					None
+				}
+			};
 			&built
 		};
+		if w.ref_snap.is_none() {
+			continue;
+		}
 		// per world: two delivery plans with their own schedules; every fourth world replays plan 0 under a third schedule
 		let mut variants: Vec<(u64, u64)> = vec![(0, 0)];
 		if !san {
